@@ -26,7 +26,8 @@ CHECKS['C13'] = dict(level=MC, ref='4 C13',
     text='Truncation.tla transcribes the selection rule as a two-stage nondeterministic relation on integer spectra (ties are the only freedom). TLC explores every '
          '(spectrum, options) of the bound through both stages and checks limits / top-per-block / top-global / maximality / ties-only / non-binding / weight on every reachable '
          'mask. Each input is then one call of the real truncation_mask; TLC (TraceTruncation) accepts iff the returned mask is in Admissible(sp, o), inferring the hidden stage-1 '
-         'survivors. svd_with_truncation / eigh_with_truncation run on operands with prescribed integer spectra (complex, rank-3, non-zero charge, sU/nU variants): kept spectrum '
+         'survivors. svd_with_truncation / eigh_with_truncation run on operands with prescribed integer spectra (complex, rank-3, non-zero charge, sU/nU variants, policy fullrank / lowrank '
+         'with different limits per sector, eigh with which in LR/LM/SM/SR - smallest-first orders are validated on the order-reversed spectrum): kept spectrum '
          'per sector and squared error must be an admissible outcome.',
     note='bounded: <=2 sectors x <=3 values in 0..2 (quick) / 0..3 + 3 sectors + unsorted (thorough); D_total in {0,1,2,3,5,inf}, D_block scalar {0,1,2,inf} or dict with missing keys, '
          'tol/tol_block in {0,1/3,1/2,1} scalar or dict. Decompositions: spectra without exact zeros and tolerances off exact boundaries (float round-off decides there); '
@@ -51,7 +52,8 @@ CHECKS['C03'] = dict(level=MC, ref='4 C03',
     text=TT + '. In the spec fusion only regroups native legs (fusion trees), never touches an element, so unfuse(fuse(x)) = x, norm invariance and "operations over fused legs = operations over '
          'the original legs, missing sectors are zeros" hold by construction and are decided on the implementation. Scenarios: S1 binary ops over identically fused operands whose legs are '
          'independent subsets of one universe (equal/overlapping/disjoint content), S2 trace over fused legs, S3 incompatibly fused operands (order, partition, mode, hidden constituent signature) '
-         'must end in YastnError, S4 fuse to depth<=3 / unfuse roundtrip; hard, meta and mixed; lazy transpositions.',
+         'must end in YastnError, S4 fuse to depth<=3 / unfuse roundtrip; hard, meta and mixed; lazy transpositions; S9: contraction over BLOCKED nested hard-fused legs with different sector '
+         'content (sum of products of spaces, also fused once more after blocks were removed on one side) as a "route" event - the value must equal the validated sum of the plain tensordots.',
     note='bounded: ranks 2..4, universes of 2-3 charges, dims 1..2, 1260 (quick) / 12000 (thorough) scenarios; S8: yastn.block - super-tensors of 2-4 operands on a grid along 1-2 blocked legs with common legs, reference TensorOps!Block (labels shifted by the dimensions of the earlier positions), then norm / contraction over the blocked leg / transposition of the result; blocking of FUSED operands and two-step blocking not covered. Added scenarios: S5 sparse operands contracted in place over 2-3 legs (original vs fused, depth 1-2), S6 contractions whose merged operand needs zero padding of exactly the size of the partner-less blocks, S7 n-ary sums with a dimension conflict hidden inside a hard-fused group and invisible from the first operand (TraceTensor!MustRejectHidden: must be rejected in every operand order); all scenarios rotate over the three policies x two default modes',
     technique='TLA+ label model of fusion (TensorOps) + TLC trace validation of recorded scenario programs')
 CHECKS['C14'] = dict(level=MC, ref='4 C14',
@@ -87,7 +89,8 @@ CHECKS['C15'] = dict(level=MC, ref='4 C15',
          'and patch) and probes numpy.shares_memory of every new object with every live one; TraceHeap.tla validates each event against the model.',
     note='bounded: 60/900 tensor call sequences of 14/18 calls over all symmetries (pure ops of C01 + copy/clone/shallow_copy + set_block + block-view writes), 18/240 MPS sequences (add, mul, conj, apply, '
          'measure, to_tensor, reverse, copy/clone/shallow_copy, canonize_/truncate_/orthogonalize_site_/absorb_central_/item assignment), 4/24 PEPS sequences (copy/clone/shallow_copy, item assignment, '
-         'apply_gate_, Peps2Layers copy/clone); environments not driven yet; the API list is explicit in the drivers, not introspected',
+         'apply_gate_, Peps2Layers copy/clone, copy/clone/shallow_copy/item assignment/block-view write while a patch is open); element-wise and scalar functions (abs, real, imag, exp, sqrt, rsqrt, reciprocal, '
+         'pow, entropy, truncation_mask, to_dense / to_numpy / to_nonsymmetric / to_dict, norms) as pure calls; a rejected pure call must change nothing either; environments not driven yet; the API list is explicit in the drivers, not introspected',
     technique='TLA+ aliasing model (Heap) + TLC + trace validation of recorded public calls with before/after digests of all live objects')
 CHECKS['C17'] = dict(level=MC, ref='4 C17',
     text='Serialize.tla is a state machine over serialisation FORMS (obj, dict, split, legacy, hdf5, done) tracking level and whether a pending permutation is still pending; TLC explores ALL routes to '
@@ -104,8 +107,8 @@ CHECKS['C04'] = dict(level=MC, ref='4 C04',
          'leg, its charge sectors from the effective charges of the bipartition under Charges!Add (four sU/nU cases), dimension min(rows, cols) (exact when all blocks are stored, upper bound otherwise), '
          'which factor carries the total charge, agreement of U/S/V on the connecting space, raw well-formedness; operands with prescribed integer spectra are compared per sector.',
     note='reconstruction, isometry / co-isometry, non-negativity and ordering of S, upper-triangularity and non-negative diagonal of R are floating-point facts MEASURED by the harness (tolerance 1e-10 '
-         'relative, named in the check) and enter the trace as verdict bits that the spec requires to be TRUE - observed, not modelled. eig (bi-orthonormal pairs) and low-rank policies not covered. '
-         'bounded: 480 (quick) / 8000 (thorough) programs, ranks 2..6, all symmetries. eig (general eigendecomposition): structure of U, S, V (TensorOps, as svd with square sectors), reconstruction and V U = 1 (1e-8) on generic non-degenerate square operands incl. groups that are meta-fused differently; one open KNOWN FINDING: eig on a sector with a degenerate spectrum (rescaling of arbitrarily paired left/right eigenvectors)',
+         'relative, named in the check) and enter the trace as verdict bits that the spec requires to be TRUE - observed, not modelled. low-rank policies: C13. '
+         'bounded: 480 (quick) / 8000 (thorough) programs, ranks 2..6, all symmetries. eig (general eigendecomposition): structure of U, S, V (TensorOps, as svd with square sectors), reconstruction and V U = 1 (1e-8) on generic non-degenerate square operands incl. groups that are meta-fused differently; one open KNOWN FINDING: eig on a sector with a degenerate spectrum (rescaling of arbitrarily paired left/right eigenvectors); eig is not called on operands with a defective or nearly defective sector (condition number of the eigenvector matrix > 1e6, e.g. an integer Jordan block): no eigendecomposition exists there, the count is in the evidence',
     technique='TLA+ structure semantics of factorisations (TensorOps) + TLC trace validation; numeric clauses as measured verdicts')
 CHECKS['C06'] = dict(level=MC, ref='4 C06',
     text='Registers hold alpha(to_tensor()) of real MPS/MPO objects whose site tensors are small integers, so every object has an exact Gaussian-integer dense representative. TLC (TraceTensor m_* events) '
@@ -164,10 +167,12 @@ CHECKS['C11'] = dict(level=MC, ref='4 C11',
          'cylinders, product states pure / one-dimensional ancillas / full purification); after every apply_gate_ (nearest-neighbour in both orientations and all four directions, exact and SVD split, local, '
          'two-site along longer paths, MPO gates of 2..4 sites along arbitrary paths) and every PEPS addition TracePeps.tla computes the expected vector from the REGISTERED previous one and requires '
          'equality entry by entry; DoublePepsTensor.tensordot must equal tensordot of fuse_layers() entry by entry for every supported axis pair, both operand orders, random transposition / operator / '
-         'charge swaps. Predefined gates are compared as dense matrices with scipy expm(-step H), H being a combination of basis matrices each validated against Fock!Matrix by TLC.',
+         'charge swaps. Chain-focus circuits apply genuine multi-site fermionic MPO gates (hopping chains on 3-4 site paths, straight and all corners) to states with odd ancilla charges. '
+         'Predefined gates are compared as dense matrices with scipy expm(-step H), H being a combination of basis matrices each validated against Fock!Matrix by TLC; the same closed forms '
+         'with the SpinfulFermions_tJ operators against the exponential projected on the space without double occupancy.',
     note='the expm comparison of the predefined gates is a floating-point observation (1e-10 relative); everything else is exact integer arithmetic in TLC. local gates are parity-even; a gate that annihilates '
-         'the state ends the comparison at that step; purifications are limited to (2^nm)^(2N) <= 300 amplitudes. bounded: lattices up to 6 sites (4 spinful), 96/1200 circuits of 5/7 gates, 16/200 '
-         'DoublePepsTensor instances x 12 contractions, 8/96 predefined-gate parameter sets per family',
+         'the state ends the comparison at that step; purifications are limited to (2^nm)^(2N) <= 300 amplitudes. bounded: lattices up to 6 sites (4 spinful), 96/1200 circuits of 5/7 gates + 60/600 chain-focus circuits of 4 gates, 16/200 '
+         'DoublePepsTensor instances x 12 contractions, 8/96 predefined-gate parameter sets per family (+3/36 for the t-J operators); a state whose bond dimension exceeds 32 is not continued',
     technique='TLA+ Fock-space reference semantics (Fock, PepsOps) + TLC + trace validation of recorded to_tensor() states of real gate circuits, replayed from registered states')
 CHECKS['C18'] = dict(level=MC, ref='4 C18',
     text='Krylov.tla states the integer part of the expmv controller (accept / reject, basis kept / reset, clamps on tau and ncv, forced shrink); KrylovMC model-checks it against EVERY environment '
